@@ -123,7 +123,7 @@ func (P *Prog) newExec(fn *ssa.Function, key string, c *Contract, rank int) *Exe
 	x := &Exec{P: P, fn: fn, key: key, c: c, decls: NewDecls(), mapSorts: map[string]string{}, rank: rank,
 		loopOf: map[*ssa.BasicBlock]*Loop{}, maxPaths: 6000, maxSteps: 400000,
 		implIfaces: map[string]*types.Interface{}, rtypeUsed: map[int]types.Type{}, inlined: map[string]int{},
-		usedContracts: map[string]bool{}, metaClauses: map[string]bool{}, probeCount: map[string]int{}, specDefs: map[string]*specDef{}, entryLets: map[string]Value{}}
+		usedContracts: map[string]bool{}, metaClauses: map[string]bool{}, probeCount: map[string]int{}, probeCands: map[string][]*Obligation{}, probePrio: map[string]int{}, specDefs: map[string]*specDef{}, entryLets: map[string]Value{}}
 	if fn != nil {
 		for _, l := range P.Loops(fn) {
 			x.loopOf[l.Header] = l
@@ -231,6 +231,29 @@ func (x *Exec) runTop() {
 		break
 	}
 	x.execBlock(st, nil, fn.Blocks[0])
+	x.flushProbes()
+}
+
+// flushProbes keeps an evenly spread sample of the clause-level vacuity probes (at most 48 per
+// clause and run): the probe only has to find one return path on which the antecedent holds.
+func (x *Exec) flushProbes() {
+	var labels []string
+	for l := range x.probeCands {
+		labels = append(labels, l)
+	}
+	sort.Strings(labels)
+	for _, l := range labels {
+		c := x.probeCands[l]
+		const max = 48
+		if len(c) <= max {
+			x.obls = append(x.obls, c...)
+			continue
+		}
+		for k := 0; k < max; k++ {
+			x.obls = append(x.obls, c[k*(len(c)-1)/(max-1)])
+		}
+	}
+	x.probeCands = map[string][]*Obligation{}
 }
 
 func (x *Exec) concretizeLen(st *State, env *Env, e *Expr, k int) {
@@ -316,13 +339,20 @@ func (x *Exec) atReturn(st *State, res []Value) {
 			if len(st.path) > 0 && strings.HasPrefix(st.path[0], "case:") {
 				pk += "|" + st.path[0]
 			}
-			if isImpl && (x.c.Schema == "" || x.probeCount[pk] < 8) {
+			if isImpl && (x.c.Schema == "" || x.probeCount[pk] < 8) && x.probeCount[pk] < 4000 {
 				ante := env.evalBool(cl.E.Args[0])
 				if ante.IsFalse() {
 					continue
 				}
 				x.probeCount[pk]++
-				x.obls = append(x.obls, &Obligation{Name: shortKey(x.key) + "#vacuity:" + cl.Label, Func: x.key, Kind: "vacuity", Label: cl.Label,
+				if impliedByPath(st, ante) && x.probePrio[cl.Label] < 6 {
+					// the path condition already contains the antecedent: a sure candidate witness
+					x.probePrio[cl.Label]++
+					x.obls = append(x.obls, &Obligation{Name: shortKey(x.key) + "#vacuity:" + cl.Label, Func: x.key, Kind: "vacuity", Label: cl.Label,
+						Rank: x.rank, Hyps: append([]Term(nil), st.pc...), Goal: TFalse, decls: x.decls, prog: x, Canary: true, Path: strings.Join(st.path, ">"), inputs: x.inputs})
+					continue
+				}
+				x.probeCands[cl.Label] = append(x.probeCands[cl.Label], &Obligation{Name: shortKey(x.key) + "#vacuity:" + cl.Label, Func: x.key, Kind: "vacuity", Label: cl.Label,
 					Rank: x.rank, Hyps: append(append([]Term(nil), st.pc...), ante), Goal: TFalse, decls: x.decls, prog: x, Canary: true, Path: strings.Join(st.path, ">"), inputs: x.inputs})
 			}
 		}
@@ -558,4 +588,39 @@ func (x *Exec) concretizeHeapRead(st *State, subject, val Value) {
 			return
 		}
 	}
+}
+
+
+// impliedByPath: every top-level conjunct of t is literally part of the path condition.
+func impliedByPath(st *State, t Term) bool {
+	if t.IsTrue() {
+		return true
+	}
+	if st.pcSet == nil {
+		st.pcSet = map[string]bool{}
+		for _, p := range st.pc {
+			st.pcSet[p.S] = true
+		}
+	}
+	var conj func(s string) bool
+	conj = func(s string) bool {
+		if st.pcSet[s] {
+			return true
+		}
+		if strings.HasPrefix(s, "(and ") {
+			body := s[5 : len(s)-1]
+			i := 0
+			for i < len(body) {
+				e := sexprEnd(body, i)
+				part := strings.TrimSpace(body[i:e])
+				if part != "" && !conj(part) {
+					return false
+				}
+				i = e
+			}
+			return true
+		}
+		return false
+	}
+	return conj(t.S)
 }
